@@ -169,6 +169,9 @@ func CheckSingleWriter(res *ChurnResult) (findings []Finding, uncertainKeys int,
 	}
 	// final reads from every live node
 	for _, o := range per[1000] {
+		if o.Err != "" && o.Timeout {
+			continue // transport failure / timeout on the real RPC path: says nothing about the data
+		}
 		if o.Err != "" {
 			findings = append(findings, Finding{Key: "final-read-error", What: fmt.Sprintf("after quiescence %s(%s) via node %d still fails: %s", o.Kind, o.Key, o.Entry, o.Err), Witness: map[string]any{"op": o}})
 			continue
